@@ -877,18 +877,26 @@ def fixed_typed_docs(ctx, cfg):
 TYPED_TOKENS = [b'[', b']', b'{', b'}', b',', b':', b' ', b'"a"', b'"b"', b'"1"', b'"-1"', b'"true"', b'1', b'-1', b'256', b'1.5',
                 b'true', b'null', b'"', b'-', b'0', b'\\u0061', b'"\xc3\xa9"', b'1e2']
 
+CORE_TYS = ['i0', 'mi0b', 'S(61:ob,62:i0)', 'E(61:t(i0b),62:S(61:b))', 'ai0', 't(bs)', 'mbu', 'E(61:u,62:wi0)']
+
 def typed_space(ctx, small=False):
     """(ty text, input) pairs: fixed types x exhaustive token sequences (general alphabet and a typed one)"""
     quick = ctx.tier == 'quick'
     n_gen = 2 if quick or small else 3
-    n_typ = 3 if quick or small else 4
     general = list(gen.enum_tokens(n_gen))
-    typed = list(gen.enum_tokens(n_typ, TYPED_TOKENS))
+    typed3 = list(gen.enum_tokens(3, TYPED_TOKENS))
+    typed4 = None
     for tyt in FIXED_TYS:
         for d in general:
             yield tyt, d
-        for d in typed:
-            yield tyt, d
+        if not (quick or small) and tyt in CORE_TYS:
+            if typed4 is None:
+                typed4 = list(gen.enum_tokens(4, TYPED_TOKENS))
+            for d in typed4:
+                yield tyt, d
+        else:
+            for d in typed3:
+                yield tyt, d
     # float targets over the number-literal families (f32 has its own parsing path under float_roundtrip)
     lits = gen.number_literals(ctx.rng, 300 if quick or small else 3000)
     if quick or small:
@@ -958,9 +966,13 @@ def run_c09_typed(ctx):
         L = ctx.letters(cfg)
         ctx.letters_now = L
         quick = ctx.tier == 'quick'
-        srcs = ['s', 'r1', 'r3', 'rx5'] if quick else ['s', 'r1', 'r2', 'r3', 'r7', 'rx3', 'rx11']
-        space = itertools.chain(typed_mutants(ctx, cfg, 300 if quick else 3000), typed_space(ctx, small=quick))
-        for batch in chunks(space, 200000):
+        srcs_all = ['s', 'r1', 'r3', 'rx5'] if quick else ['s', 'r1', 'r2', 'r3', 'r7', 'rx3', 'rx11']
+        nmut = 300 if quick else 3000
+        space = itertools.chain((('M', p) for p in typed_mutants(ctx, cfg, nmut)), (('S', p) for p in typed_space(ctx, small=quick)))
+        for tagged in chunks(space, 200000):
+            batch = [p for _, p in tagged]
+            # every chunking schedule on the documents and their mutations; the exhaustive space through four sources
+            srcs = srcs_all if tagged[0][0] == 'M' else ['s', 'r1', 'r3', 'rx5']
             ctx.violations += judge_c09_typed(ctx, cfg, batch, srcs)
             # the model is the specification of each source separately (value, code, category, exact position, message class)
             v = []
